@@ -44,10 +44,21 @@ End Older.
 Lemma valid_tail d older : valid (d :: older) = true -> valid older = true.
 Proof. cbn [valid]. intros H. apply andb_true_iff in H as [_ H]. exact H. Qed.
 
+Lemma valid_parts d older : valid (d :: older) = true ->
+  forallb (fun b => b <? length older) (d_bases d) = true
+  /\ match d_bases d with [] => true | b0 :: rest => forallb (fun b => root_of older b =? root_of older b0) rest end = true
+  /\ code2cls older (root_of (d :: older) (length older)) (d_discr d) = None
+  /\ valid older = true.
+Proof.
+  cbn [valid]. intros H. apply andb_true_iff in H as [H H4]. apply andb_true_iff in H as [H H3]. apply andb_true_iff in H as [H1 H2].
+  repeat split; try assumption.
+  destruct (code2cls older (root_of (d :: older) (length older)) (d_discr d)); [discriminate | reflexivity].
+Qed.
+
 Lemma valid_head_lt d older b : valid (d :: older) = true -> In b (d_bases d) -> b < length older.
 Proof.
-  cbn [valid]. intros H Hb. apply andb_true_iff in H as [H _]. apply andb_true_iff in H as [H _].
-  rewrite forallb_forall in H. apply H in Hb. now apply Nat.ltb_lt in Hb.
+  intros H Hb. destruct (valid_parts _ _ H) as [H1 _].
+  rewrite forallb_forall in H1. apply H1 in Hb. now apply Nat.ltb_lt in Hb.
 Qed.
 
 Lemma bases_lt s : valid s = true -> forall b c, In b (bases_of s c) -> b < c /\ c < length s.
@@ -143,7 +154,7 @@ Proof.
   destruct (Nat.eq_dec c (length older)) as [->|Hne].
   - rewrite bases_new in Hb. pose proof (valid_head_lt _ _ _ Hv Hb) as Hlt.
     rewrite (root_older d older b) by lia. cbn [root_of]. rewrite Nat.eqb_refl.
-    cbn [valid] in Hv. apply andb_true_iff in Hv as [Hv _]. apply andb_true_iff in Hv as [_ Hr].
+    destruct (valid_parts _ _ Hv) as [_ [Hr _]].
     destruct (d_bases d) as [|b0 rest]; [contradiction|]. destruct Hb as [->|Hb]; [reflexivity|].
     rewrite forallb_forall in Hr. apply Hr in Hb. now apply Nat.eqb_eq in Hb.
   - rewrite bases_older in Hb by assumption. destruct (bases_lt older Hv' b c Hb).
@@ -297,6 +308,32 @@ Proof.
         exists k. split; [reflexivity|]. now apply HS'.
 Qed.
 
+(* ------------------------------------------------------------------ accepted schemas have pairwise different values per tree *)
+Lemma valid_inj s : valid s = true -> discr_inj s.
+Proof.
+  induction s as [|d older IH]; intros Hv a b Ha Hb Hr Hd; [cbn in Ha; lia|].
+  destruct (valid_parts _ _ Hv) as [_ [_ [Hnew Hv']]]. cbn [length] in Ha, Hb.
+  assert (Hclash : forall x, x < length older -> root_of (d :: older) x = root_of (d :: older) (length older) ->
+                   discr_of (d :: older) x = discr_of (d :: older) (length older) -> False).
+  { intros x Hx Hrx Hdx. rewrite root_older in Hrx by lia. rewrite discr_older, discr_new in Hdx by lia.
+    apply (code2cls_complete older x Hx). rewrite Hrx, Hdx. exact Hnew. }
+  destruct (Nat.eq_dec a (length older)) as [->|Hna], (Nat.eq_dec b (length older)) as [->|Hnb]; [reflexivity | | |].
+  - exfalso. apply (Hclash b); [lia | now symmetry | now symmetry].
+  - exfalso. apply (Hclash a); [lia | assumption | assumption].
+  - rewrite !root_older in Hr by assumption. rewrite !discr_older in Hd by assumption. apply (IH Hv'); auto; lia.
+Qed.
+
+Lemma criteria_valid s : valid s = true -> forall e k, e < length s -> k < length s -> root_of s k = root_of s e ->
+  (selected s e (discr_of s k) = true <-> In k (e :: subclasses s e)).
+Proof. intros Hv. exact (criteria_exact_list s Hv (valid_inj s Hv)). Qed.
+
+Lemma isinstance_valid s : valid s = true -> forall e cs k, e < length s -> family s e k ->
+  isinst_eval (isinstance_sql s e cs) (discr_of s k) = py_isinstance s k cs.
+Proof. intros Hv. exact (isinstance_exact s Hv (valid_inj s Hv)). Qed.
+
+Lemma reload_valid s : valid s = true -> forall e k, e < length s -> family s e k -> reload_class s e (discr_of s k) = Some k.
+Proof. intros Hv. exact (reload_exact s Hv (valid_inj s Hv)). Qed.
+
 (* ------------------------------------------------------------------ the hypotheses are decidable: boolean forms for concrete schemas *)
 Definition discr_injb (s : schema) : bool :=
   let ids := seq 0 (length s) in
@@ -322,12 +359,6 @@ Definition s_diamond : schema :=
 Definition s_dup : schema :=
   [ {| d_bases := [0]; d_discr := 7 |}; {| d_bases := [0]; d_discr := 7 |}; {| d_bases := []; d_discr := 0 |} ].
 
-Lemma dup_valid : valid s_dup = true. Proof. reflexivity. Qed.
-Lemma dup_reload_wrong : reload_class s_dup 0 (discr_of s_dup 1) = Some 2.
+(* since fix d645930 the second use of a value is refused when the class is defined *)
+Lemma dup_rejected : valid s_dup = false.
 Proof. reflexivity. Qed.
-Lemma dup_selected_wrong : selected s_dup 2 (discr_of s_dup 1) = true /\ ~ family s_dup 2 1.
-Proof.
-  split; [reflexivity|]. intros [H|H]; [discriminate|]. destruct (anc_lt s_dup dup_valid _ _ H). lia.
-Qed.
-Lemma dup_isinstance_wrong : isinst_eval (isinstance_sql s_dup 0 [2]) (discr_of s_dup 1) = true /\ py_isinstance s_dup 1 [2] = false.
-Proof. split; reflexivity. Qed.
